@@ -119,6 +119,22 @@ fn run11<T: Est>(c: &H11, o: &mut Obs) -> TestResult {
             }
         }
         lens_ok(&pool, &n, &format!("step {} ({:?})", step, op), o)?;
+        // identity probes on the estimator this step touched (state left behind by the step)
+        let t = match op {
+            Op11::New { i } | Op11::Add { i, .. } | Op11::Merge { i, .. } | Op11::Clone { i, .. } | Op11::SelfMerge { i, .. } => *i % POOL,
+        };
+        let sa = pool[t].snap();
+        let mut a1 = pool[t].clone();
+        a1.merge_(&T::new_());
+        o.evals += 2;
+        if let Some(d) = snap_diff(&sa, &a1.snap()) {
+            return fail("identity:merge-empty-into", format!("{}: after step {} ({:?}) merging a fresh empty estimator into estimator {} ({} observations) changed it: {}", T::NAME, step, op, t, n[t], d));
+        }
+        let mut e = T::new_();
+        e.merge_(&pool[t]);
+        if let Some(d) = snap_diff(&sa, &e.snap()) {
+            return fail("identity:merge-into-empty", format!("{}: after step {} ({:?}) merging estimator {} ({} observations) into a fresh empty one does not reproduce it: {}", T::NAME, step, op, t, n[t], d));
+        }
     }
     // probes
     for i in 0..POOL {
